@@ -121,6 +121,16 @@ impl<TS: TimeSource> ClaimTable<TS> {
         self.claims.retain(|e| e.timeout >= now);
     }
 
+    #[cfg(dswd_vpncloud_verif)]
+    pub fn verif_snapshot(&self) -> crate::verif::TableSnapshot {
+        let mut cache: Vec<_> = self.cache.iter().map(|(a, v)| (*a, v.peer, v.timeout)).collect();
+        cache.sort_by(|a, b| (a.0.len, a.0.data, a.1).cmp(&(b.0.len, b.0.data, b.1)));
+        crate::verif::TableSnapshot {
+            claims: self.claims.iter().map(|e| (e.claim, e.peer, e.timeout)).collect(),
+            cache,
+        }
+    }
+
     pub fn cache_len(&self) -> usize {
         self.cache.len()
     }
